@@ -266,3 +266,87 @@ Check C08_next_id_restarts_from_lowest_absent :
   exists id, op_next_id g = Ok (set_next g (S id), id) /\ id < cap_of g /\ tag g id = 0
              /\ forall w, w < id -> tag g w <> 0.
 Print Assumptions C08_next_id_restarts_from_lowest_absent.
+
+(** ** generations of save+load, and what the image determines (SerialMore.v) *)
+
+From Sodg Require Import SerialMore.
+
+(** the allocator position is the only part of a graph that is not in its image *)
+Theorem C08_image_ignores_allocator :
+  forall k g, encode (renext k g) = encode g.
+Proof. exact encode_renext. Qed.
+
+Check C08_image_ignores_allocator :
+  forall k g, encode (renext k g) = encode g.
+Print Assumptions C08_image_ignores_allocator.
+
+(** what load() returns satisfies the hypothesis again and is saved to the very same bytes *)
+Theorem C08_save_load_save :
+  forall lim n g g',
+    wf_image_state lim n g ->
+    decode lim n (encode g) = LOk g' ->
+    g' = renext 0 g /\ encode g' = encode g /\ wf_image_state lim n g'
+    /\ decode lim n (encode g') = LOk g'.
+Proof. exact save_load_save. Qed.
+
+Check C08_save_load_save :
+  forall lim n g g',
+    wf_image_state lim n g ->
+    decode lim n (encode g) = LOk g' ->
+    g' = renext 0 g /\ encode g' = encode g /\ wf_image_state lim n g'
+    /\ decode lim n (encode g') = LOk g'.
+Print Assumptions C08_save_load_save.
+
+Theorem C08_def_generations :
+  forall lim n k g,
+    generations lim n k g =
+    match k with
+    | 0 => LOk g
+    | S k' => match decode lim n (encode g) with
+              | LOk g' => generations lim n k' g'
+              | e => e
+              end
+    end.
+Proof. exact generations_def. Qed.
+
+Check C08_def_generations :
+  forall lim n k g,
+    generations lim n k g =
+    match k with
+    | 0 => LOk g
+    | S k' => match decode lim n (encode g) with
+              | LOk g' => generations lim n k' g'
+              | e => e
+              end
+    end.
+Print Assumptions C08_def_generations.
+
+(** any number (at least one) of save+load generations gives the graph the first one gave *)
+Theorem C08_generations_stable :
+  forall lim n g k,
+    wf_image_state lim n g -> generations lim n (S k) g = LOk (renext 0 g).
+Proof. exact generations_stable. Qed.
+
+Check C08_generations_stable :
+  forall lim n g k,
+    wf_image_state lim n g -> generations lim n (S k) g = LOk (renext 0 g).
+Print Assumptions C08_generations_stable.
+
+(** two graphs have the same image exactly when they differ in the allocator position only *)
+Theorem C08_image_determines_graph :
+  forall lim n g1 g2,
+    wf_image_state lim n g1 -> wf_image_state lim n g2 ->
+    encode g1 = encode g2 <-> renext 0 g1 = renext 0 g2.
+Proof. exact encode_inj_renext. Qed.
+
+Check C08_image_determines_graph :
+  forall lim n g1 g2,
+    wf_image_state lim n g1 -> wf_image_state lim n g2 ->
+    encode g1 = encode g2 <-> renext 0 g1 = renext 0 g2.
+Print Assumptions C08_image_determines_graph.
+
+Example C08_generations_example :
+  generations 1048576 4 1 example_graph = LOk (renext 0 example_graph)
+  /\ generations 1048576 4 3 example_graph = LOk (renext 0 example_graph)
+  /\ renext 0 example_graph <> example_graph.
+Proof. exact generations_example. Qed.
